@@ -344,6 +344,8 @@ impl SequenceMatcher {
         let mut timestamp_passed = 0usize;
         let mut where_failed = 0usize;
         let mut where_passed = 0usize;
+        // A FOLLOWED BY A: both sides index the same rows and an event is not its own successor
+        let same_rows = event_type_a == event_type_b;
 
         // Log group statistics
         if tracing::enabled!(tracing::Level::DEBUG) {
@@ -379,7 +381,7 @@ impl SequenceMatcher {
                 );
             }
 
-            if ts_b >= ts_a {
+            if ts_b >= ts_a && !(same_rows && row_a == row_b) {
                 timestamp_passed += 1;
                 // Match found: event B follows event A (or happens at the same time)
                 // Apply WHERE clause filtering if present
@@ -439,7 +441,7 @@ impl SequenceMatcher {
                 }
                 a_ptr += 1;
             } else {
-                // Event B is not after event A, advance b_ptr
+                // Event B is not after event A (or is event A itself), advance b_ptr
                 b_ptr += 1;
             }
         }
